@@ -47,7 +47,7 @@ def update_counter(curr, new):
         return curr
     if curr is None:
         curr = collections.Counter()
-    if isinstance(new, str):
+    if isinstance(new, str) or not isinstance(new, (list, tuple, set)):
         new = [new]
     if not isinstance(curr, collections.Counter):
         curr = collections.Counter(curr)
